@@ -232,6 +232,14 @@ func init() {
 		fmt.Printf("CheckMnemonic(%q, %s) = %v\nthen the same string under %s = %v (reference verdict %q)\n", s, ref.LangNames[a], e1, ref.LangNames[b], e2, v)
 		return (e2 == nil) == (v == ref.VValid) || e2 != nil
 	}
+	replayers["encodeafter"] = func(m *ref.Model, cs map[string]interface{}) bool {
+		first, e, l := string(unhex(cs["first"])), unhex(cs["entropy"]), toInt(cs["lang"])
+		e1 := bip39.CheckMnemonic(first, Langs[l])
+		got, err := bip39.NewMnemonicByEntropy(e, Langs[l])
+		want := m.Encode(e, l)
+		fmt.Printf("CheckMnemonic(%q) = %v\nthen NewMnemonicByEntropy(%x, %s) = %q err=%v\nexpected %q\n", first, e1, e, ref.LangNames[l], got, err, want)
+		return err == nil && got == want
+	}
 	replayers["checkafter"] = func(m *ref.Model, cs map[string]interface{}) bool {
 		first, s, l := string(unhex(cs["first"])), string(unhex(cs["sentence"])), toInt(cs["lang"])
 		e1 := bip39.CheckMnemonic(first, Langs[l])
